@@ -528,7 +528,7 @@ def _short(t):
 
 
 
-def year_siblings(an, rep):
+def year_siblings(an, rep, rule='R2.9', refusing_only=False, floor=650):
     """R2.9 - years whose definitions of a line agreed on the baseline (sa/siblings.py, sa/data/year_siblings.json) still
     agree: the sibling years are each other's reference for what the line computes."""
     from ..siblings import signature, mirrors
@@ -545,14 +545,19 @@ def year_siblings(an, rep):
                 d = an.defs.get((y, fname, lname))
                 if d is not None:
                     sigs[y] = signature(d, mir)
+                    if refusing_only:      # C09 judges the refusals alone: whether, when, and over which copies
+                        sg = sigs[y]
+                        sigs[y] = ((), sg[1], (), (), sg[4], sg[5])
             if len(sigs) < 2:
+                continue
+            if refusing_only and not any(sg[1] for sg in sigs.values()):
                 continue
             n += 1
             distinct = {}
             for y, sg in sigs.items():
                 distinct.setdefault(sg, []).append(y)
             if len(distinct) == 1:
-                rep.ob('R2.9', f'{key}/{"+".join(map(str, grp))}', True)
+                rep.ob(rule, f'{key}/{"+".join(map(str, grp))}', True)
                 continue
             # the odd one out is the smallest class (ties: the latest year)
             odd_sig, odd_years = sorted(distinct.items(), key=lambda kv: (len(kv[1]), -max(kv[1])))[0]
@@ -563,11 +568,25 @@ def year_siblings(an, rep):
             reads_ref = sorted(set(ref_sig[2]) - set(odd_sig[2]))[:3]
             if odd_sig[1] != ref_sig[1]:
                 only_odd.append('<refuses>' if odd_sig[1] else '<never refuses>')
+            def gate_text(gs):
+                return [f"{a} counted when " + ' and '.join(('' if pol else 'not ') + t for t, pol in u) for a, u in gs][:3]
+            gates_odd = gate_text(sorted(set(odd_sig[3]) - set(ref_sig[3])))
+            gates_ref = gate_text(sorted(set(ref_sig[3]) - set(odd_sig[3])))
+            how_odd = sorted(set(odd_sig[4]) - set(ref_sig[4]))
+            how_ref = sorted(set(ref_sig[4]) - set(odd_sig[4]))
+            def when_text(ws):
+                return [f'a refusal depends on {t}' + ({'True': ' being affirmative', 'False': ' being negative'}.get(pol, '')) for t, pol in ws][:3]
+            gates_odd += when_text(sorted(set(odd_sig[5]) - set(ref_sig[5])))
+            gates_ref += when_text(sorted(set(ref_sig[5]) - set(odd_sig[5])))
             d = an.defs[(odd_years[0], fname, lname)]
-            rep.ob('R2.9', f'{key}/{"+".join(map(str, grp))}', False,
-                   f'{key}: the {odd_years} definition no longer computes what its sibling years {ref_years} compute (they agreed on the baseline). '
-                   f'Only in {odd_years}: answers made of {only_odd}, reads {reads_odd}; only in {ref_years}: answers made of {only_ref}, reads {reads_ref}', d.where)
-    rep.floor('(line, class of sibling years) pairs compared', n, 650)
+            tie = len(odd_years) == len(ref_years)
+            head = (f'{key}: the definitions of {sorted(odd_years + ref_years)} no longer compute the same thing (they agreed on the baseline; one of them was edited alone). '
+                    if tie else
+                    f'{key}: the {odd_years} definition no longer computes what its sibling years {ref_years} compute (they agreed on the baseline). ')
+            rep.ob(rule, f'{key}/{"+".join(map(str, grp))}', False,
+                   head + f'Only in {odd_years}: answers made of {only_odd}, reads {reads_odd}, conditions {gates_odd}, loop shape {how_odd}; '
+                   f'only in {ref_years}: answers made of {only_ref}, reads {reads_ref}, conditions {gates_ref}, loop shape {how_ref}', d.where)
+    rep.floor('(line, class of sibling years) pairs compared', n, floor)
     return n
 
 
